@@ -19,6 +19,9 @@ def check(tree, rep, tier='quick', seed=0):
     l1_access(tree, rep)
     l2_effects(tree, rep)
     l2b_shared_iterators(tree, rep)
+    from .c17 import one_definition_per_name, get_catalogue
+    one_definition_per_name(get_catalogue(tree), rep)
+    R.k12c_who_calls(core, rep)          # lines are evaluated only from the work-list loop (never between two answers of a round)
     R.k6_single_value_writer(core, rep)
     R.k7_missing_key_raises(core, rep)
     R.k8_input_store_writes(core, rep)
